@@ -142,9 +142,13 @@ def max_rel_deviation(a, b):
 
 def compare_closed_forms(ca, cb, tol=1e-25):
     """True / False / None(inconclusive)"""
-    if ca["free"] != cb["free"]:
-        # a symbol that cancels on one side only is fine as long as the values agree
-        pass
+    # Auxiliary symbols (e.g. _prob3 = P(f == 1) of an abstracted condition) denote quantities the closed form does not
+    # spell out; they were given generic values.  If the two sides do not contain the same auxiliaries (one side
+    # abstracted a condition, the other typed the variable) the values cannot be compared: inconclusive, never a difference.
+    aux_a = {x for x in ca["free"] if x.startswith("_")}
+    aux_b = {x for x in cb["free"] if x.startswith("_")}
+    if aux_a != aux_b:
+        return None
     verdict = True
     for va, vb in zip(ca["vals"], cb["vals"]):
         for x, y in zip(va, vb):
